@@ -6,6 +6,7 @@ PROP_FILES = ["C16"]
 
 
 class CondSpec(SeqSpec):
+    ctx_zoo = True      # contexts come from the zoo (cause / DeadlineExceeded / plain), see vlib.apply_ctx_zoo
     component = "cond"
     imports = "From Juniper Require Import Common.Base Conc.GoLTS Conc.GoLTSProofs Conc.Cond."
     # a history is reported as rejected only when the rejection is certified genuine: GoLTSProofs.reject_genuine
@@ -187,6 +188,8 @@ class CondSpec(SeqSpec):
                 returned[w] = e[2]
                 if e[2] == "nil" and not e[3]:
                     fails.append(("nil-without-lock", "event %d: Wait of waiter %d returned nil but the caller does not hold the lock" % (i, w)))
+                if isinstance(e[2], str) and e[2].startswith("other:"):
+                    fails.append(("wrong-error", "event %d: Wait of waiter %d returned %r, which is not its context's error" % (i, w, e[2][6:])))
                 if e[2] == "err" and e[3]:
                     fails.append(("err-with-lock", "event %d: Wait of waiter %d returned the context error while holding the lock" % (i, w)))
                 if e[2] == "err" and ctx_of.get(w) not in cancelled_ever:
